@@ -165,10 +165,11 @@ def args2 (c : Cmd) : List Arg :=
   if !(st0.disableVersionFlag || !st0.hasVersion) then args1 ++ [versionArg] else args1
 
 /-- the command-level hyphen switches touch nothing the assertions or the parser's lookups read -/
-theorem cmdLevelArg_fields (st : Settings) (a : Arg) :
+theorem cmdLevelArg_fields (st : LevelSwitches) (a : Arg) :
     (cmdLevelArg st a).id = a.id ∧ (cmdLevelArg st a).long = a.long ∧ (cmdLevelArg st a).short = a.short ∧
     (cmdLevelArg st a).aliases = a.aliases ∧ (cmdLevelArg st a).index = a.index := by
   unfold cmdLevelArg
+  simp only
   split <;> simp
 
 theorem buildSelfCore_args (c : Cmd) : ∃ st, (buildSelfCore c).args = ((buildArgs (args2 c) 1 c.groups).1).map (cmdLevelArg st) := by
